@@ -42,6 +42,9 @@ def plan(tier, seed):
         specs.append(("eol-defects", i, 4))
     for i in range(4):
         specs.append(("truncations", i, 4))
+    n = 8000 if tier == "quick" else 100000
+    for i in range(16):
+        specs.append(("alias-graphs", n // 16, i))
     specs.append(("variants", 0))
     for i in range(4):
         specs.append(("cmdline", i, 4))
@@ -280,6 +283,14 @@ def run_shard(ctx, spec):
         ctx.stats["eol_defect_cases"] += len(batch)
         if idx == 0:
             ctx.sample({"family": "defect at the end of a line x line ending x context", "example": batch[len(batch) // 2]["files"][0]}, limit=1)
+    elif kind == "alias-graphs":
+        _, count, idx = spec
+        rng = ctx.rng("aliasgraph/%d" % idx)
+        batch = [{"files": fam.alias_graph_program(rng)} for _ in range(count)]
+        # small batches: a stack overflow kills the worker and is attributed to its case; a hang costs one time-out
+        for k0 in range(0, len(batch), 100):
+            scr.run(batch[k0:k0 + 100], sample_rate=0.02)
+        ctx.stats["alias_graph_cases"] += len(batch)
     elif kind == "truncations":
         _, idx, n = spec
         batch = [{"files": [t], "key": k} for i, (k, t) in enumerate(fam.truncation_programs()) if i % n == idx]
@@ -589,7 +600,8 @@ def main(tier, seed):
               "type form in every type position, cycles and long chains, nesting to the 8 KiB cap, scaling families (CPU-time curve "
               "per size, through the binary), doc comments with mixed-width Unicode indentation, CRLF/tab/BOM/NUL variants, command-"
               "line value combinations incl. empty strings, multi-file sets, programs whose every element carries a lint cut at every token "
-              "boundary (bare and followed by a stray token). A sample of the soup, mutation, type-form, cycle, doc-comment, "
+              "boundary (bare and followed by a stray token), alias graphs with loops through anonymous types and by-name uses in every "
+              "order. A sample of the soup, mutation, type-form, cycle, doc-comment, "
               "variant and multi-file families plus model-generated valid programs is repeated under AddressSanitizer builds of the "
               "worker (which dereferences every pointer of the resulting AST) and of the binary (counters prefixed asan.). Thorough tier: "
               "a libFuzzer + AddressSanitizer build of the library pipeline explores from seeds of these families for a fixed time on "
@@ -597,7 +609,7 @@ def main(tier, seed):
               "distinct_nontrivial = distinct non-empty inputs"
               % (len(fam.TOKENS), 2 if tier == "quick" else 3)),
         required={"inproc_cases": 5000, "binary_runs": 500, "inproc_error_free": 50, "typeform_position_pairs": 300,
-                  "scaling_instances": 20, "cmdline_runs": 300, "doc_indentation_cases": 100, "doc_product_cases": 1000, "eol_defect_cases": 1000, "truncation_cases": 1500, "asan.truncation_cases": 1500,
+                  "scaling_instances": 20, "cmdline_runs": 300, "doc_indentation_cases": 100, "doc_product_cases": 1000, "eol_defect_cases": 1000, "truncation_cases": 1500, "asan.truncation_cases": 1500, "alias_graph_cases": 5000,
                   "asan.inproc_cases": 1500, "asan.binary_runs": 300, "asan.valid_model_programs": 200,
                   **({"fuzz_executions": 200000, "fuzz_coverage_edges": 3000} if tier == "thorough" else {})},
         assumptions=["the time bound is decided on CPU time (rusage / thread clock), never on wall-clock; a watchdog firing below the "
